@@ -59,21 +59,6 @@ C03Group(i, truncOK) ==
 (* and by path; bounds are compared on (lo, hi) summaries of the data,     *)
 (* floats via a monotone integer image (ordinal).                          *)
 (***************************************************************************)
-LeafOK(lf, dl) ==
-  /\ lf.path = dl.path
-  /\ lf.dtype = dl.dtype
-  /\ lf.shape = dl.shape
-LeafBounds(lf, dl) ==
-  \/ lf.empty
-  \/ /\ ~lf.nan
-     /\ (dl.has_min => lf.lo >= dl.min)
-     /\ (dl.has_max => lf.hi <= dl.max)
-C01Leaves(lvs, dls) ==
-  { <<"C01.obs_structure", Len(lvs) = Len(dls)
-        /\ \A j \in 1..Len(lvs) : j <= Len(dls) => lvs[j].path = dls[j].path>>,
-    <<"C01.obs_leaf_shape", \A j \in 1..Len(lvs) : j <= Len(dls) => lvs[j].shape = dls[j].shape>>,
-    <<"C01.obs_leaf_dtype", \A j \in 1..Len(lvs) : j <= Len(dls) => lvs[j].dtype = dls[j].dtype>>,
-    <<"C01.obs_leaf_bounds", \A j \in 1..Len(lvs) : j <= Len(dls) => LeafBounds(lvs[j], dls[j])>> }
 C01Group(i) ==
   LET e == Ev(i) IN
   IF IsStep(i) /\ e.pl THEN {}     \* C01 quantifies "up to and including the terminal step"
